@@ -413,9 +413,16 @@ class ImmediateOperand(Operand):
         if self.value.is_numeric() and not self.instruction.is_16_bit and \
                 self.value.int > (128 if self.value.is_negative() else 255):
             raise OperandTypeError("[{}] does not fit in 8 bits".format(self.operand_string))
+        additional = self.value
+        if self.value.is_numeric():
+            # The immediate field is as wide as the instruction says, however the value was written or computed
+            operand_bytes = self.instruction.mode.imm_sz - NumericValue(self.instruction.mode.imm).byte_len()
+            additional = NumericValue(
+                -self.value.int if self.value.is_negative() else self.value.int, size_hint=operand_bytes * 2
+            )
         return CodePackage(
             op_code=NumericValue(self.instruction.mode.imm),
-            additional=self.value,
+            additional=additional,
             size=self.instruction.mode.imm_sz,
             max_size=self.instruction.mode.imm_sz,
         )
